@@ -137,7 +137,9 @@ KERNELS = [
     # ---- a GP mutation at the Python level: Tree values, draws, calls of the translated Tree methods
     dict(name="shrink_mutation", file="utils/mutations.py", func="shrink_mutation",
          params=[("tree", "Tree"), ("uniset", "Opaque"), ("proba", "Int"), ("max_level", "Int")], ret="Tree", streams=True,
-         tree_calls={"get_args_id": "find_id_args_from_i", "subtree": "Tree_subtree", "concat": "Tree_concat"}),
+         tree_calls={"get_args_id": "Tree_get_args_id", "subtree": "Tree_subtree", "concat": "Tree_concat"}),
+    dict(name="Tree_get_args_id", file="base/_tree.py", cls="Tree", func="get_args_id", params=[("index", "Int")], ret="Arr",
+         self_tree=True, uses=["find_id_args_from_i"]),
     # ---- Tree.get_levels / get_max_level and the Python-level GP crossover standard_crossover (two parents: `individs[0]`, `individs[1]`)
     dict(name="Tree_get_levels", file="base/_tree.py", cls="Tree", func="get_levels", params=[("index", "Int")], ret="Arr",
          self_tree=True, uses=["get_levels_tree_from_i"]),
@@ -409,9 +411,9 @@ class Tr:
                 self.hoist(a, lines, env, guarded)
             if guarded:
                 raise NotRecognised(f"effectful call {ast.unparse(e)} under a short-circuit operator")
-            _, nargs = self.tree_pair(e.func.value, env)
+            nodes, nargs = self.tree_pair(e.func.value, env)
             t = self.tmp("Arr")
-            lines.append(f"(match {self.tree_calls['get_args_id']} {self.E(e.args[0], env)} {nargs} with | some v => {{ s with {t} := v }} | none => {{ s with err := true }})")
+            lines.append(f"(match {self.tree_calls['get_args_id']} {nodes} {nargs} {self.E(e.args[0], env)} with | some v => {{ s with {t} := v }} | none => {{ s with err := true }})")
             env[id(e)] = f"s.{t}"
             return
         if self.is_tree_call(e, "get_levels"):
